@@ -45,7 +45,10 @@ def init_post(C):
         s.starttime == runspec_of(d, 'starttime', base('starttime')),
         s.stoptime == runspec_of(d, 'stoptime', base('stoptime')),
         s.dt == runspec_of(d, 'dt', base('dt')),
-        s.model == m, s.sd_simulation.is_null, s.name == C.name)
+        s.model == m, s.sd_simulation.is_null, s.name == C.name,
+        # only the new scenario object is written (and the points of ITS model when it brings points)
+        only_obj(C, ['SdScenario.constants', 'SdScenario.points', 'SdScenario.starttime', 'SdScenario.stoptime', 'SdScenario.dt',
+                     'SdScenario.model', 'SdScenario.sd_simulation'], C.self))
 
 
 contract('SdScenario.__init__', file=F_SC, src_name='SimulationScenario.__init__', props=['C07', 'C06'],
@@ -234,3 +237,87 @@ def rss_inner(C, n):
             0 <= C.outer_k, C.outer_k < C.v.scenario_objects.keys.len,
             sc == C.v.scenario_objects[C.v.scenario_objects.keys.raw(C.outer_k)]]
     return And(*base)
+
+# ---- ScenarioManagerSd.add_scenarios (base constants / base points; own values win; own dictionaries) ---------------
+declare_class('ScenarioManagerSd', ['object'], base_constants=CONSTS, base_points=CONSTS, scenarios=SCEN_MAP, model=TRef('SdModel'), name=STR)
+SMS = TRef('ScenarioManagerSd')
+
+contract('ScenarioManagerSd.get_cloned_model', trusted=True, props=['C06', 'C07'], allocates=True,
+         note='(structural obligations in c06_clone) a new Model, or None for None',
+         params=dict(self=SMS, model=TRef('SdModel')), returns=TRef('SdModel'),
+         ensures=lambda C: Implies(Not(C.result.is_null), C.fresh(C.result)))
+contract('ScenarioManagerSd.instantiate_model', trusted=True, props=['C06', 'C07'], params=dict(self=SMS),
+         note='(re)compiles file based models; for registered models applies constants/points of every scenario to its own clone')
+
+
+def merged(C, sc_consts, given_has, given, base):
+    """sc_consts (DictView) == base overlaid with the given own values"""
+    return FA('str', lambda c: And(
+        Implies(And(given_has, given.has(c)), And(sc_consts.has(c), sc_consts.raw(c) == given.raw(c))),
+        Implies(And(base.has(c), Not(And(given_has, given.has(c)))), And(sc_consts.has(c), sc_consts.raw(c) == base.raw(c)))))
+
+
+def add_state(C, upto):
+    m1, m0 = C.self, C.old.self
+    d = C.scenario_dictionary
+    keys = d.keys
+    return FA('idx', lambda j: Implies(And(0 <= j, j < upto), And(
+        m1.scenarios.has(keys.raw(j)), m1.scenarios[keys.raw(j)] != NULL,
+        merged(C, m1.scenarios[keys.raw(j)].constants, d[keys.raw(j)].has('constants'), d[keys.raw(j)]['constants'], m0.base_constants),
+        merged(C, m1.scenarios[keys.raw(j)].points, d[keys.raw(j)].has('points'), d[keys.raw(j)]['points'], m0.base_points),
+        # a scenario that did not bring its own dictionary gets one of its own: never the manager's base dictionary
+        Implies(And(m0.base_constants.size > 0, Not(d[keys.raw(j)].has('constants'))), m1.scenarios[keys.raw(j)].constants.oid != m0.base_constants.oid),
+        Implies(And(m0.base_points.size > 0, Not(d[keys.raw(j)].has('points'))), m1.scenarios[keys.raw(j)].points.oid != m0.base_points.oid))))
+
+
+def add_frame(C):
+    m1, m0 = C.self, C.old.self
+    return And(m1.base_constants.z == m0.base_constants.z, m1.base_points.z == m0.base_points.z,
+               C.scenario_dictionary.wf, m0.base_constants.wf, m0.base_points.wf)
+
+
+def part_merged(C, sc, which, base, given, k):
+    """sc[which] = given[which] overlaid on the first k entries of base"""
+    return And(
+        sc.has(which), Implies(Not(given.has(which)), sc[which].oid != base.oid),
+        FA('str', lambda c: And(
+            Implies(And(given.has(which), given[which].has(c)), And(sc[which].has(c), sc[which].raw(c) == given[which].raw(c))),
+            Implies(And(base.has(c), d_pos(CONSTS, base.z)[c] < k, Not(And(given.has(which), given[which].has(c)))),
+                    And(sc[which].has(c), sc[which].raw(c) == base.raw(c))),
+            # nothing else is in it
+            Implies(sc[which].has(c), Or(And(given.has(which), given[which].has(c)), And(base.has(c), d_pos(CONSTS, base.z)[c] < k))))))
+
+
+def add_inner(which, base_attr):
+    def inv(C):
+        sc = C.v.scenario
+        m0 = C.old.self
+        base = getattr(m0, base_attr)
+        d = C.scenario_dictionary
+        key = d.keys.raw(C.outer_k)
+        given = d[key]
+        parts = [add_frame(C), add_state(C, C.outer_k), 0 <= C.outer_k, C.outer_k < d.keys.len, C.v.name == key,
+                 part_merged(C, sc, which, base, given, C.k)]
+        if which == 'constants':
+            # the points entry is still as given
+            parts += [sc.has('points') == given.has('points'), Implies(given.has('points'), sc['points'].z == given['points'].z)]
+        else:
+            # the constants are finished (all of base_constants merged, if there are any)
+            parts += [Implies(m0.base_constants.size > 0, part_merged(C, sc, 'constants', m0.base_constants, given, m0.base_constants.size)),
+                      Implies(m0.base_constants.size == 0, And(sc.has('constants') == given.has('constants'),
+                                                               Implies(given.has('constants'), sc['constants'].z == given['constants'].z)))]
+        return And(*parts)
+    return inv
+
+
+c = contract('ScenarioManagerSd.add_scenarios', file=F_SM, props=['C06', 'C07'], allocates=True,
+             params=dict(self=SMS, scenario_dictionary=TDict(STR, SETTINGS)),
+             requires=lambda C: And(C.scenario_dictionary.wf, C.self.base_constants.wf, C.self.base_points.wf),
+             ensures=lambda C: And(add_frame(C), add_state(C, C.scenario_dictionary.keys.len)),
+             loops={0: lambda C: And(add_frame(C), add_state(C, C.k)), 1: add_inner('constants', 'base_constants'),
+                    2: add_inner('points', 'base_points')},
+             modifies=['ScenarioManagerSd.scenarios', 'SdScenario.dictionary', 'SdScenario.scenario_manager', 'SdScenario.model',
+                       'SdScenario.sd_simulation', 'SdScenario.stoptime', 'SdScenario.starttime', 'SdScenario.dt', 'SdScenario.constants',
+                       'SdScenario.points', 'SdScenario.name', 'SdScenario.result', 'SdModel.points'])
+CONTRACTS['SimulationScenario.__init__'] = CONTRACTS['SdScenario.__init__']
+declare_class('SimulationScenario', ['SdScenario'])
